@@ -86,8 +86,10 @@ CHECKS = {
             "pipeline, each single pass, seeded permutations / subsets / repetitions: ~4000 tables per quick run, all "
             "accepted on the current tree; it rejects the outputs of the optimizer defects repaired earlier), and O vs I / "
             "OG vs IG are compared on all cases (the source of replays). Not modelled: the passes themselves; the exporter "
-            "reads the compiled regex text of an OptimizedChoice and maps it to terminals (trusted); the fused SKIP rule is "
-            "compared through execution only.", "4.C02",
+            "reads the compiled regex text of an OptimizedChoice and maps it to terminals (trusted). The fused SKIP rule is "
+            "validated too (OptSkip.ochk_skip; C02_fused_skip_rule_is_implicit_skipping: one call of SKIP = pest's implicit "
+            "skipping of the original grammar); that the optimised parsers call SKIP at the places where the reference "
+            "skips is tied by execution (O/OG vs the reference semantics).", "4.C02",
             "proved translation validator run on the real optimizer output + optimized-vs-unoptimized differential"),
     "C08": ("proof", "Theorems (SpecEquiv.v, 22 statements): untagged group is identity, sequence / choice re-association, "
             "extraction of a sub-expression into a fresh silent rule, duplicate alternative, never-matching "
@@ -134,11 +136,16 @@ CHECKS = {
             "operation of seeded histories, observed results vs a fresh interpreter, 8 threads vs sequential. Thread "
             "scheduling inside one parse() call is outside the model.", "4.C15",
             "world model theorem + shared-state monitor + history/thread differential"),
-    "C17": ("proof", "PARTIAL. Proved on artefacts regenerated from /repo: JSON grammars reference only defined rules, "
-            "terminate on every input (wf_auto), trees well-formed, samples accepted / prefix rejected; the "
-            "calculator's Pratt table gives canonical unique trees (C18 instance). End-to-end: generated RFC 8259 "
-            "documents and proper prefixes in four modes vs json.loads; three calculators vs an evaluator written "
-            "from the documented table.", "4.C17",
+    "C17": ("proof", "JSON: Theorem C17_json_complete (JsonComplete.v, no axioms) about the grammar REGENERATED from "
+            "examples/json/json.pest on every run: every RFC 8259 text whose top level is an array or object - any nesting, "
+            "every number form, every escape, insignificant whitespace wherever RFC 8259 allows it - is accepted by the "
+            "reference semantics, consuming the whole input, with a tree that mirrors the document (same nesting and member "
+            "order, number and string tokens exactly the source slices, EOI last). Also: both JSON grammars reference only "
+            "defined rules, terminate on every input (wf_auto), trees well-formed. PARTIAL: rejection of proper prefixes is "
+            "differential only; tests/grammars/json.pest has no completeness theorem; the calculators' text-to-pairs step is "
+            "differential (their Pratt table gives canonical unique trees: instance of C18). End-to-end on every run: "
+            "generated RFC 8259 documents and proper prefixes in four modes vs json.loads; three calculators vs an "
+            "evaluator written from the documented table.", "4.C17",
             "instance theorems + differential against json.loads and an independent evaluator"),
     "C18": ("proof", "Theorems (PrattProof.v): the tree built is canonical for the declared table, its yield is the "
             "consumed stream, every canonical tree is rebuilt from its yield (exactness), canonical trees are unique, "
